@@ -470,6 +470,11 @@ func soundROM(r *rig.Rng) []byte {
 		// burn some time: DEC B; JR NZ
 		emit(0x06, uint8(1+r.Intn(255)), 0x05, 0x20, 0xfd)
 	}
+	if r.Chance(1, 3) {
+		// the guest goes into STOP mode with notes playing (nobody presses a key): the sound
+		// hardware keeps running and the samples keep coming at the same pace
+		emit(0x10, 0x00)
+	}
 	emit(0xc3, uint8(loop), uint8(loop>>8))
 	return rom
 }
